@@ -1,25 +1,28 @@
 (* Properties_C03.v -- property C03: Descriptor handlers run only for kernel-reported conditions, right cookie.  Statements only.
    Every theorem quantifies over ALL well-formed scenarios: all handler scripts, all kernel behaviours the scenario
-   language can express, all four poll methods, all fault sets, any wait limit.
-   STATUS: the full statement of this property on the core model is `mon_C03 (run_scenario sc) = true /\ no_code [101] ...`
-   (see Properties_C03.v.draft); the theorems below are the monitor clauses already proved (named _partial);
-   the remaining clauses (303 304) are checked on every implementation AND model trace by the extracted monitor
-   while their proofs are being completed. *)
-From Coq Require Import List ZArith Bool.
-From Ivv Require Import Core.Kernel Core.CoreTypes Core.CoreFd Core.CoreModel Core.Monitors Core.CoreSpec
-  Core.CoreRel Core.CoreCodes.
+   language can express (conditions changed at any point, ready order rotations, external posts), all four poll
+   methods, all fault sets (EINTR at any wait / epoll_ctl, missing system calls), any wait limit. *)
+From Coq Require Import List ZArith Bool Lia.
+From Ivv Require Import Core.Kernel Core.CoreTypes Core.CoreFd Core.CoreModel Core.Monitors Core.GuardMon Core.CoreSpec
+  Core.CoreInv Core.CoreRel Core.CorePhase2Fd Core.CoreExamples.
 Import ListNotations.
 Local Open Scope Z_scope.
 
-(* a descriptor callback is for a registered descriptor (101), through the handler currently set for that band (301),
-   with that descriptor's current cookie (302) *)
-Theorem C03_registered_partial :
-  forall sc, wf_scenario sc -> no_code [101] (mon_fails (run_scenario sc)).
-Proof. intros sc Hwf. eapply no_code_sub; [|exact (codes_C01 sc Hwf)]. simpl; intros c Hc; intuition. Qed.
-Print Assumptions C03_registered_partial.
+Definition no_code (codes : list Z) (tr : list Z) : Prop := forall c, In c tr -> ~ In c codes.
 
-Theorem C03_handler_and_cookie_partial :
-  forall sc, wf_scenario sc -> no_code [301; 302] (mon_fails (run_scenario sc)).
-Proof. intros sc Hwf. eapply no_code_sub; [|exact (codes_handlers sc Hwf)]. simpl; intros c Hc; intuition. Qed.
-Print Assumptions C03_handler_and_cookie_partial.
+(* every descriptor callback: registered (101), through the handler currently set (301), with the current cookie
+   (302), for a band whose condition held at the preceding kernel poll (303), at most once per iteration (304) *)
+Theorem C03_calls_justified :
+  forall sc, wf_scenario sc -> mon_C03 (run_scenario sc) = true /\ no_code [101] (mon_fails (run_scenario sc)).
+Proof. exact core_mon_C03. Qed.
+Print Assumptions C03_calls_justified.
 
+(* non-vacuity: a well-formed run on every poll method in which the descriptor handler is called exactly for the
+   reported band with the cookie set before registration *)
+Example C03_nonvacuous :
+  forall be, In be [0; 1; 2; 3] ->
+    wf_scenario (ex_all be) /\ In (TCallFd 0 0 1 7) (run_scenario (ex_all be)) /\ mon_fails (run_scenario (ex_all be)) = [].
+Proof.
+  intros be H. split; [apply ex_all_wf; cbn [In] in H; intuition lia|].
+  pose proof (ex_all_runs be H) as R. cbv zeta in R. tauto.
+Qed.
